@@ -34,6 +34,17 @@ class VpC20MsgU(Serializable):
     value: int = 0
 
 
+# a handler is application code and may fail: messages carrying these values make every harness handler raise, after it
+# recorded the call
+RAISES = {901: KeyError, 902: LookupError, 903: ValueError, 904: AttributeError, 905: IndexError, 906: TypeError, 907: RuntimeError}
+
+
+def raise_for(msg):
+    exc = RAISES.get(getattr(msg, "value", None))
+    if exc is not None:
+        raise exc("handler failed on value %r" % msg.value)
+
+
 class ResourceBase(object):
     """every handler only records (resource id, method name, the argument objects it was given)"""
 
@@ -45,6 +56,7 @@ class ResourceBase(object):
 
     def _rec(self, meth, args):
         self.sink.append((self.rid, meth, args))
+        raise_for(args[-1])
 
     def helper(self, seqnum, msg):
         # an undecorated method: never an event handler
